@@ -14,6 +14,9 @@ Rule ==
                        /\ \A i \in 1..Len(Ev.a) : R1Judged(Ev.a[i], Ev.b[i], Ev.k) => R1OK(Ev.a[i], Ev.b[i], Ev.k)
     [] Ev.op = "r3" -> /\ Ev.res = "Ok" /\ Ev.wa = Ev.wb
                        /\ Ev.finite => Within(Ev.got, Ev.ref, Tol(Ev.fam))
+    \* a call that consumed another number of words follows another construction: not judged (guard, counted by the check)
+    [] Ev.op = "wire" -> /\ Ev.res = "Ok"
+                         /\ (Ev.wa = Ev.wb) => (IF Ev.finite THEN Within(Ev.got, Ev.ref, WireTol(Ev.fam)) ELSE Ev.same_class)
     [] Ev.op = "tri" -> Ev.res = "Ok" /\ Ev.words = 1 /\ TriOK(Ev.mn, Ev.mx, Ev.md, Ev.fn, Ev.xq, Ev.yq)
     [] Ev.op = "zs" -> ZScoreOK(Ev.m, Ev.s, Ev.z, Ev.r256)
     [] Ev.op = "id" -> Ev.res = "Ok" /\ Ev.wa = Ev.wb /\ (Ev.finite => Within(Ev.got, Ev.ref, 1))      \* LogNormal = exp(Normal)
